@@ -238,9 +238,18 @@ def _format(ck, p, byk):
         ck.decide(rule, "write_word_list", ok, w.span, "per word: write_all(word) then write_all(b\"\\n\") inside the loop: word writes=%d newline writes=%d" % (len(word_w), len(nl)))
     if ck.anchor(rule, "dictionary_io::dict_from_word_list", r):
         ck.saw(r)
-        ls = [t for bi, t in r.calls() if inst_of(t) == "core::str::{impl}::lines"]
-        other = [t for bi, t in r.calls() if method(t) in ("split", "split_whitespace", "split_terminator", "splitn", "split_ascii_whitespace")]
-        ck.decide(rule, "dict_from_word_list", len(ls) == 1 and not other, r.span, "reader splits with str::lines (%d), other splitters: %d" % (len(ls), len(other)))
+        # the reader and everything defined inside it (nested fns, closures)
+        bodies = [g for g in p.fns.values() if g.name.startswith("harper_ls::dictionary_io::dict_from_word_list") and g.get("kind") != "Promoted"]
+        LINE = re.compile(r"(core::str::\{impl\}::lines$|io::BufRead::lines$|io::BufRead::read_line$|AsyncBufReadExt::lines$|AsyncBufReadExt::read_line$|::next_line$)")
+        ls = [t for g in bodies for bi, t in g.calls() if LINE.search(norm(inst_of(t) or def_of(t) or ""))]
+        other = [t for g in bodies for bi, t in g.calls() if method(t) in ("split", "split_whitespace", "split_terminator", "splitn", "split_ascii_whitespace", "split_inclusive")]
+        # bytes -> text must be strict: a lossy decode of a partial buffer turns the multi-byte character that
+        # lies across the buffer boundary into replacement characters, i.e. another word
+        lossy = [t for g in bodies for bi, t in g.calls() if re.search(r"(from_utf8_lossy|from_utf8_unchecked|from_utf16_lossy)$", norm(inst_of(t) or def_of(t) or ""))]
+        ok = len(ls) >= 1 and not other and not lossy
+        ck.decide(rule, "dict_from_word_list", ok, (r.loc(lossy[0]["ln"]) if lossy else r.span),
+                  "reader splits the text into lines (%d line-splitting call(s)), other splitters: %d, lossy byte-to-text conversions: %d%s" % (
+                      len(ls), len(other), len(lossy), "" if not lossy else " - a word whose multi-byte character crosses a read-buffer boundary is loaded as a different word, flagged again, and written back on the next save"))
 
 
 # a function that forgets part of a word's spelling (case, apostrophe style, surrounding blanks)
